@@ -274,7 +274,11 @@ func (m *bsMachine) check() {
 			continue
 		}
 		if !c.getOp.Finished() {
-			m.fail("C05/get-lost-wakeup", "Get(c%d) still blocked at quiescence although it must return (value available=%v ctxCancelled=%v closed=%v lagging=%v)",
+			sig := "C05/get-lost-wakeup"
+			if c.pos() < nb {
+				sig = "C05+C03/get-lost-wakeup" // a consumer that was overtaken while it waited must fail loudly, not wait on
+			}
+			m.fail(sig, "Get(c%d) still blocked at quiescence although it must return (value available=%v ctxCancelled=%v closed=%v lagging=%v)",
 				c.id, c.pos() < len(m.G), c.getCtxErr, m.closed, c.pos() < nb)
 		}
 		if !wantErr && c.pos() < nb {
@@ -1309,7 +1313,7 @@ func (m *bsMachine) ruleRange(t *rapid.T) {
 	for i := range want {
 		if calls[i].index != want[i].index || calls[i].value != want[i].value {
 			m.tr("%s", desc)
-			m.fail("C02/range-callbacks", "callback %d got (index %d, value %v), expected (index %d, value %v)", i, calls[i].index, calls[i].value, want[i].index, want[i].value)
+			m.fail("C02+C01/range-callbacks", "callback %d got (index %d, value %v), expected (index %d, value %v)", i, calls[i].index, calls[i].value, want[i].index, want[i].value)
 		}
 	}
 	if fmt.Sprint(stolen) != fmt.Sprint(wantStolen) && len(calls) == len(want) {
